@@ -132,8 +132,10 @@ Return ==
   /\ UNCHANGED <<tmpl, allowed, ncalls, hist>>
 
 Step == StepTop \/ StepV9Header \/ StepV9Flowset \/ StepV9End \/ StepIpfixHeader \/ StepIpfixSet \/ StepIpfixEnd \/ Return
-Env  == \/ \E p \in Parsers, b \in Buffers : Call(p, b)
-        \/ \E p \in Parsers, S \in AllowedSets : SetAllowed(p, S)
+\* (the guards stand outside the quantifiers so that TLC does not enumerate Buffers inside a call)
+Env  == /\ ~InCall
+        /\ \/ ncalls < MaxCalls /\ \E p \in Parsers, b \in Buffers : Call(p, b)
+           \/ ncalls < MaxCalls /\ \E p \in Parsers, S \in AllowedSets : SetAllowed(p, S)
 Next == Step \/ Env
 Spec == Init /\ [][Next]_vars /\ WF_vars(Step)
 
